@@ -208,7 +208,7 @@ func RefWrite(spec lib.FileSpec, rseed uint64) []byte {
 	f := &ref.File{FileKey: rng.Bytes(16), Nonce: rng.Bytes(16), Plain: spec.Plain()}
 	for _, r := range spec.Recips {
 		if r.Grease != nil {
-			for _, w := range (&world.GreaseRecipient{N: r.Grease.N, BodyLen: r.Grease.Body, Tag: r.Grease.Tag, ArgLen: r.Grease.Arg}).Stanzas() {
+			for _, w := range r.Grease.Recipient().Stanzas() {
 				f.Stanzas = append(f.Stanzas, &ref.Stanza{Type: w.Type, Args: w.Args, Body: w.Body})
 			}
 			continue
